@@ -44,6 +44,14 @@ theorem apduRespDec_canonical (xs : List UInt8) (r : Resp) (h : apduRespDec xs =
           simp only [e1]
           simp
 
+/-- an accepted response is consumed entirely: data field and the two status octets are exactly the input
+    (with `apduRespDec_no_oob`: every read, on accepted and on rejected inputs, is inside `[0, count)`) -/
+theorem apduRespDec_bounded (xs : List UInt8) (r : Resp) (h : apduRespDec xs = .ok r) :
+    r.rdf.length + 2 = xs.length := by
+  have e := apduRespDec_canonical xs r h
+  rw [← e]; simp [apduRespEnc]
+example : apduRespDec [0x90] = .err ∧ apduRespDec [1, 2, 0x90, 0] = .ok ⟨0x90, 0, [1, 2]⟩ := by decide +kernel
+
 /-- decode ∘ encode = id for every response -/
 theorem apduResp_roundtrip (r : Resp) : apduRespDec (apduRespEnc r) = .ok r := by
   unfold apduRespDec apduRespEnc
